@@ -78,7 +78,9 @@ def ugrid_dataset(m, rng, force=None):
         d["face_dimension_attr"] = True
     si = 0 if d["start_index"] == "absent" else d["start_index"]
     fillv = {"intmin": INT_FILL, "nan": np.nan}.get(d["fill"], d["fill"])
-    w = max(len(f) for f in m.faces)
+    d.setdefault("extra_width", _pick(rng, [0, 0, 0, 1, 2]))  # tables may be wider than the widest face (all-padding columns)
+    d["padded"] = d["padded"] or d["extra_width"] > 0
+    w = max(len(f) for f in m.faces) + d["extra_width"]
     if d["dtype"] == "float64":
         conn = np.full((m.n_face, w), np.nan if d["fill"] == "nan" else float(fillv))
     else:
@@ -103,7 +105,7 @@ def ugrid_dataset(m, rng, force=None):
     attrs = {"cf_role": "face_node_connectivity"}
     if d["start_index"] != "absent":
         attrs["start_index"] = str(si) if d["start_index_type"] == "str" else si
-    if mixed or rng.random() < 0.5:
+    if d["padded"] or rng.random() < 0.5:
         if d["fill"] != "nan":
             attrs["_FillValue"] = conn.dtype.type(fillv)
         d["fill_declared"] = True
@@ -152,7 +154,8 @@ def mpas_dataset(m, rng, supply_distances=None, dual=False, force=None):
     if force:
         d.update(force)
     nC, nV = m.n_face, m.n_node
-    w = max(len(f) for f in m.faces)
+    d.setdefault("extra_width", _pick(rng, [0, 0, 0, 1, 2]))  # maxEdges larger than the largest cell
+    w = max(len(f) for f in m.faces) + d["extra_width"]
     edges, eid = edges_of(m, rng)
     nE = len(edges)
     efm = ref.edge_faces(m.faces)
@@ -269,7 +272,8 @@ def scrip_dataset(m, rng, force=None):
     d = {"lon": _pick(rng, ["-180..180", "0..360"]), "area": True, "mixed_padding": "repeat_last"}
     if force:
         d.update(force)
-    w = max(len(f) for f in m.faces)
+    d.setdefault("extra_width", _pick(rng, [0, 0, 0, 1, 2]))  # grid_corners larger than the largest cell
+    w = max(len(f) for f in m.faces) + d["extra_width"]
     lon, lat = m.lonlat()
     lon = _lon(lon, d["lon"])
     clon = np.zeros((m.n_face, w))
@@ -335,7 +339,8 @@ def esmf_dataset(m, rng, force=None):
     if force:
         d.update(force)
     si = 1 if d["start_index"] == "absent" else d["start_index"]
-    w = max(len(f) for f in m.faces)
+    d.setdefault("extra_width", _pick(rng, [0, 0, 0, 1, 2]))  # maxNodePElement larger than the largest element
+    w = max(len(f) for f in m.faces) + d["extra_width"]
     lon, lat = m.lonlat()
     conn = np.full((m.n_face, w), -1, dtype=np.int32)
     for i, f in enumerate(m.faces):
@@ -361,7 +366,7 @@ def esmf_dataset(m, rng, force=None):
         ds["centerCoords"] = xr.DataArray(np.stack([_lon(cl, d["lon"]), np.array(ca)], axis=1), dims=["elementCount", "coordDim"], attrs={"units": "degrees"})
         supplied["face_centres"] = C
     ds["elementArea"] = xr.DataArray(np.array([ref.poly_area_fan(m.ring_pos(i)) for i in range(m.n_face)]), dims=["elementCount"], attrs={"units": "radians^2"})
-    d["padded"] = len({len(f) for f in m.faces}) > 1
+    d["padded"] = len({len(f) for f in m.faces}) > 1 or d["extra_width"] > 0
     return ds, {"expect": m, "reflect": False, "dial": d, "supplied": supplied, "format": "ESMF"}
 
 
@@ -536,13 +541,14 @@ def topology_args(m, rng, force=None):
     if force:
         d.update(force)
     mixed = len({len(f) for f in m.faces}) > 1
-    d["padded"] = mixed
-    if mixed and d["fill"] == "none":
+    d.setdefault("extra_width", _pick(rng, [0, 0, 0, 1, 2]))
+    d["padded"] = mixed or d["extra_width"] > 0
+    if d["padded"] and d["fill"] == "none":
         d["fill"] = -1
     if d["fill"] == "intmin":
         d["dtype"] = "int64"
     fillv = INT_FILL if d["fill"] == "intmin" else (None if d["fill"] == "none" else d["fill"])
-    w = max(len(f) for f in m.faces)
+    w = max(len(f) for f in m.faces) + d["extra_width"]
     conn = np.full((m.n_face, w), 0 if fillv is None else fillv, dtype=d["dtype"])
     for i, f in enumerate(m.faces):
         conn[i, : len(f)] = np.array(f) + d["start_index"]
